@@ -106,6 +106,13 @@ func genRast(t *rapid.T) rastCase {
 	if rapid.IntRange(0, 2).Draw(t, "explicitbounds") == 0 {
 		c.Pad = &[4]float64{gen.F(t, -0.4, 0.3, "pad0"), gen.F(t, -0.4, 0.3, "pad1"), gen.F(t, -0.3, 0.4, "pad2"), gen.F(t, -0.3, 0.4, "pad3")}
 	}
+	if rapid.IntRange(0, 3).Draw(t, "edgetiles") == 0 {
+		// clipped edge tiles: few sub-samples (large tiles: the tile is max(1, 16/subsamples) pixels), a canvas
+		// cropped on the high sides so that the solid goes on beyond the last, partial tile — what a filtered
+		// tile is filled with must come from inside the clipped tile, not from where the full tile would be
+		c.Sub = []int{1, 1, 2, 2, 3, 4, 5}[gen.Int(t, 0, 6, "edgesub")]
+		c.Pad = &[4]float64{gen.F(t, -0.1, 0.1, "epad0"), gen.F(t, -0.1, 0.1, "epad1"), -gen.LogF(t, 0.005, 0.35, "epad2"), -gen.LogF(t, 0.005, 0.35, "epad3")}
+	}
 	if c.Mode == "solidfilter" {
 		s := genSource2(t, []string{"csg", "csg", "csg", "field", "lattice", "boxes"})
 		c.Src = &s
